@@ -102,7 +102,7 @@ package executor
 //@   at call IsRecordsEquals#3: assert compares-before-current: arg_beforeImage == b.sqlUndoLog.BeforeImage && arg_afterImage == callres("queryCurrentRecords#1", 0)
 
 //@ func (*mySQLUndoUpdateExecutor).ExecuteOn
-//@   prop C09 C01
+//@   prop C09 C01 C10
 //@   at call GetOrderedPkList: assert C01/keys-of-the-row-being-restored: arg_row == row && arg_image == m.sqlUndoLog.BeforeImage
 //@   ensures C01/a-statement-that-changed-no-row-needs-no-undo: called("dataValidationAndGoOn#1") && callres("dataValidationAndGoOn#1", 0) && callres("dataValidationAndGoOn#1", 1) == nil && m.sqlUndoLog.BeforeImage != nil && len(m.sqlUndoLog.BeforeImage.Rows) == 0 ==> result == nil && !called("PrepareContext#1")
 //@   modifies ghost.all, heap.all
@@ -114,7 +114,7 @@ package executor
 //@   at call PrepareContext#1: assert same-conn: called("dataValidationAndGoOn#1") && callarg("dataValidationAndGoOn#1", 2) == conn
 
 //@ func (*mySQLUndoDeleteExecutor).ExecuteOn
-//@   prop C09 C01
+//@   prop C09 C01 C10
 //@   at call GetOrderedPkList: assert C01/keys-of-the-row-being-restored: arg_row == row && arg_image == m.sqlUndoLog.BeforeImage
 //@   ensures C01/a-statement-that-changed-no-row-needs-no-undo: called("dataValidationAndGoOn#1") && callres("dataValidationAndGoOn#1", 0) && callres("dataValidationAndGoOn#1", 1) == nil && m.sqlUndoLog.BeforeImage != nil && len(m.sqlUndoLog.BeforeImage.Rows) == 0 ==> result == nil && !called("PrepareContext#1")
 //@   modifies ghost.all, heap.all
@@ -126,7 +126,7 @@ package executor
 //@   at call PrepareContext#1: assert same-conn: called("dataValidationAndGoOn#1") && callarg("dataValidationAndGoOn#1", 2) == conn
 
 //@ func (*mySQLUndoInsertExecutor).ExecuteOn
-//@   prop C09 C01
+//@   prop C09 C01 C10
 //@   ensures C01/a-statement-that-changed-no-row-needs-no-undo: called("dataValidationAndGoOn#1") && callres("dataValidationAndGoOn#1", 0) && callres("dataValidationAndGoOn#1", 1) == nil && m.sqlUndoLog.AfterImage != nil && len(m.sqlUndoLog.AfterImage.Rows) == 0 ==> result == nil && !called("PrepareContext#1")
 //@   modifies ghost.all, heap.all
 //@   requires m != nil && conn != nil && m.BaseExecutor != nil
